@@ -6,19 +6,19 @@ VERIF = os.path.dirname(HERE)
 CLAIMS = {
  'C01': ('3/C01 and 8.2', 'op-template extraction + abstract interpretation (gradient linearity, must-dependence, axis typestate) + term differentiation + partial evaluation (flag valuations of wrapper and closure; reduction kernels on concrete axis cases) over the 26 tensor ops',
          'Decides the structural necessary conditions of the VJP property for all 26 tensor-op wrappers and their backward kernels (wiring, operand/result binding, accumulation, linearity of every returned gradient in g, un-broadcast targets, inverse permutations, accumulating scatters, reduced-axis re-insertion, dependence on saved values, axis normalisation); it does not decide the numerical value of any Jacobian.'),
- 'C02': ('3/C02 and 8.2', 'op-template extraction + abstract interpretation (linearity, must-dependence) + term differentiation of smooth kernels + partial evaluation of the batch-norm kernels under all mode valuations',
+ 'C02': ('3/C02, 8.2 and 8.9', 'op-template extraction + abstract interpretation (linearity in the upstream gradient, degree-one homogeneity of bilinear kernels in the partner operand, must-dependence) + term differentiation of smooth kernels + partial evaluation of the batch-norm kernels under all mode valuations',
          'Same structural part as C01 for the 22 nn ops plus operand coverage (every child receives a gradient), axis-genericity of softmax kernels, forward/backward agreement of the batch-norm mode predicate, pooling geometry/permutation pairing and layer->op parameter plumbing; closed-form derivative values are not decided.'),
  'C03': ('3/C03 and 8.2', 'CFG dominance + traversal idiom recognition + template rules + partial evaluation of every op wrapper and backward closure over all flag valuations',
          'Decides the code-shape part of the chain rule on DAGs: topological (post-order) traversal with visited test-and-mark swept in reverse, one grad_fn call site executed once per node, identity keyed nodes, += accumulation per operand position in all 48 ops; gradient values are not decided.'),
- 'C04': ('3/C04', 'who-may-write scan + path-condition truth tables + freshness of the seed expression',
+ 'C04': ('3/C04 and 8.9', 'who-may-write scan + path-condition truth tables (release predicate over requires_grad / grad_fn atoms, leafness from the evaluated definition of is_leaf) + freshness of the seed expression + zero_grad and optimizer constructors evaluated on trainable / frozen parameter objects',
          'Decides the gradient-buffer discipline over all histories: writers of Tensor._grad package-wide, truth tables of the zero-init guard (leaf: create iff absent; non-leaf: always reset), root seed (accumulate iff leaf with buffer; owned dtype-converted copy) and release predicate, reset paths; gradient values are not decided.'),
- 'C05': ('3/C05 and 8.2', 'call-binding against a frozen NumPy signature table + axis/dim typestate + guard tables over raise sites and path conditions + operator composition trees + kernel evaluation on concrete shape cases',
+ 'C05': ('3/C05, 8.2 and 8.9', 'call-binding against a frozen NumPy signature table + axis/dim typestate (sign facts, copies) + guard tables over raise sites and path conditions + operator composition trees + kernel and constructor evaluation on concrete shape cases + NumPy contract lints (memory order, np.dot rank)',
          'Decides argument plumbing of forward kernels and wrappers, dim normalisation, validation-before-kernel dominance, the operator/reflected-operator table, iteration protocol and constructor plumbing; NumPy value semantics are not decided.'),
  'C06': ('3/C06 and 8.2', 'partial evaluation with path enumeration over a shape-level abstract domain (symbolic arrays, polynomial normal form) for conv_tools and the Loss reduction dispatch + geometry typestate + call binding of layers',
          'Decides int-or-tuple geometry normalisation, the output-size formula at all sites, empty-output rejection, padding constants, per-element definitions of activations / losses as terms, batch-norm statistic choice and variance forms, exhaustive string-mode dispatch and layer->functional plumbing; window layout and value equality with PyTorch are not decided.'),
- 'C07': ('3/C07 and 8.2', 'partial evaluation of all 48 op wrappers over every flag valuation + guard tables over raise sites and path conditions + typestate of the context managers + truth tables',
+ 'C07': ('3/C07, 8.2 and 8.9', 'partial evaluation of all 48 op wrappers over every flag valuation + guard tables over raise sites and path conditions + typestate of the context managers + truth tables + who-may-write of the stored flag',
          'Decides requires_grad propagation/attachment for all 48 ops, the constructor flag formula, the five flag guards, save-on-enter/restore-on-exit stack discipline of no_grad/retain_grads, no-buffer-without-requires_grad and the release predicate.'),
- 'C08': ('3/C08 and 8.2', 'may-alias abstract interpretation + control-dependence facts + partial evaluation of step() to polynomial normal forms under all flag valuations',
+ 'C08': ('3/C08, 8.2 and 8.9', 'may-alias abstract interpretation + control-dependence facts + partial evaluation of step() to polynomial normal forms under all flag valuations + constructors evaluated on parameter objects with symbolic hyper-parameters',
          'Decides ownership of optimizer state, in-place update, frozen-parameter guards, no_grad region, step counter, and equality of the SGD/Adam/AdamW updates with the published rules for every valuation of the configuration predicates; floating-point trajectories are not decided.'),
  'C09': ('3/C09 and 8.2', 'abstract interpretation over a sign/magnitude (overflow) domain of the 14 stability-critical kernels + exp/log term normal form (stabilised formula = mathematical definition)',
          'Decides absence of Inf/NaN hazards (exp of a possibly positive unbounded argument reaching a product with a possibly-zero value, a difference/quotient of unbounded values, a log or a result) and of epsilon-clipping of underflowing probabilities, and that each stabilised forward formula equals its mathematical definition as a term (shifts cancel exactly); accuracy to single precision is not decided.'),
@@ -26,7 +26,7 @@ CLAIMS = {
          'Decides that NumPy-scalar results keep their dtype in the constructor, that every forward kernel result follows the operand dtype, and that gradient buffers take dtype/shape from the tensor (zeros_like, += only, converted and shape-checked seed); float32/float64 numerical agreement is not decided.'),
  'C11': ('3/C11', 'may-alias abstract interpretation of all kernels + who-may-write scan + positive-control fixture',
          'Decides that no kernel has an in-place effect on storage that may alias a parameter, who may write Tensor.data package-wide, purity of the 48 wrappers/closures, fresh storage of clone/detach and of every gradient buffer, absence of random/clock sources in ops.'),
- 'C12': ('3/C12 and 8.2', 'registry effects of __setattr__ on partially evaluated paths + who-may-write + CFG dominance + definite assignment',
+ 'C12': ('3/C12, 8.2 and 8.9', 'partial evaluation of nn/modules.py on a heap of module / parameter objects with shared members (registries as ordered dicts; results of parameters / num_params / train / eval / zero_grad / register_* / __setattr__ / Sequential compared) + who-may-write over the call graph + CFG dominance for subclass constructors',
          'Decides exclusive/replacing registration, registry ordering and writers, identity de-duplication of parameters(), num_params counters, train/eval recursion, parameter loops, base-class discipline of all Module subclasses and Sequential order/composition.'),
  'C13': ('3/C13 and 8.2', 'partial evaluation with path enumeration: layer, functional wrapper and kernel composed under 16 mode valuations, output / stored terms compared in polynomial normal form',
          'Decides Dropout eval identity / single draw / mask orientation / 1/(1-p) scale / product op, BatchNorm statistic choice and update predicate composed over layer, wrapper and kernel, single counter increment, documented moving-average forms; distributions and numerical statistics are not decided.'),
@@ -42,7 +42,7 @@ CLAIMS = {
          'Decides complementary slice partitions with floor-rule sizes, single guarded shuffle, X/y pairing, aligned batch slices and iterator protocol, None-guarded transform and the one-hot index rule.'),
  'C19': ('3/C19 and 8.2', 'who-may-call scan over resolved callees + local inference of set-valued names + taint of id()/hash() + partial evaluation of constructors (uninitialised storage filled on every path)',
          'Decides the source discipline the repository controls: manual_seed seeds both global generators, every draw uses them, no iteration over hash-ordered sets, sweep order from a list, id()/hash() only for membership in call-local containers, empty() storage is filled on every constructor path; NumPy/BLAS cross-process identity is not decided.'),
- 'C20': ('3/C20 and 8.2', 'CFG dominance and region checks + call-site enumeration + definite-assignment dataflow + partial evaluation of the Evaluator per mode / prefix / callback valuation',
+ 'C20': ('3/C20, 8.2 and 8.9', 'partial evaluation of the Trainer methods to ordered call traces (per-batch ordering, regions, modes) + fit evaluated for two concrete epochs (history) + definite-assignment dataflow + partial evaluation of the Evaluator per mode / prefix / callback valuation',
          'Decides the per-batch zero_grad -> backward -> step ordering, one training pass per epoch in train mode, eval-mode/no_grad regions without update calls, history bookkeeping, exhaustive evaluator dispatch and definite assignment.'),
 }
 NOTE = 'Static necessary-condition check (level "other"): every rule instance is enumerated from /repo\'s current source on each run; trusted base = CPython ast parser, the frozen NumPy-role tables and reference formulas in /verif/sa, and the rule definitions in DESIGN.md. It decides the structural part named in level_claimed.text, not the value-level behaviour.'
